@@ -46,6 +46,21 @@ def run(tier):
                 meas = [c % impl.W2 + impl.W2 * rng.randrange(2) for c in inp["codes"]]
                 add(n, conn, meas, [[1, inp["program"]]])          # the state itself (up to the re-drawn signs)
                 add(n, conn, meas, [[1, rng.choice(progs)]])
+    # textbook states (GHZ, clusters, star, Y-frame states, AME): measured through their own group with re-drawn signs, on every connectivity
+    for n in range(2, 7):
+        for name, prog in sweep.named_states(n):
+            for conn in impl.conns(n):
+                jobs.append({"N": n, "m": n, "list": None, "conn": conn, "comps": [[1, prog]], "kind": "stab", "meas": None, "meas_from_prog": prog, "full": True, "dm": n <= 3, "name": name})
+    # the group of a named state is obtained from the SPEC (tableau machine run on the program), not computed by the harness
+    need = [j for j in jobs if j.get("meas_from_prog") is not None]
+    if need:
+        recs = [{"op": "tableau", "n": j["N"], "program": j["meas_from_prog"]} for j in need]
+        v, st = core.validate_traces("TraceCalls", recs, files=files, what="C12 tableau of named states")
+        ck.add_stats("TraceCalls(tableau)", st)
+        for j, (cl, out) in zip(need, v):
+            tab = [int(x) for x in out]
+            j["meas"] = [c % impl.W2 + impl.W2 * rng.randrange(2) for c in impl.remix(tab, rng)]
+            del j["meas_from_prog"]
     results = tomo.run_scenarios(ck, jobs, files, rng, "C12")
     C10.report(ck, results, "C12", "stabilizer measurement")
     ck.cov["scenarios"] = len(jobs)
